@@ -89,15 +89,18 @@ def prepare(crates=None, keep=False):
     os.makedirs(mir)
     t0 = time.time()
     subprocess.check_call(['rsync', '-a', '--delete', '--exclude', 'target', '--exclude', '.git', '--exclude',
-                           'artifacts', REPO + '/', src + '/'])
+                           'artifacts', '--exclude', '.verif-replay', REPO + '/', src + '/'])
     env = dict(os.environ)
-    env['CARGO_TARGET_DIR'] = os.path.join(CACHE, 'mir-target')
+    # a copy of the repository (VERIF_REPO) gets its own build cache: artifact names do not depend on source paths
+    mir_target = os.path.join(CACHE, 'mir-target') if os.path.abspath(REPO) == '/repo' else os.path.join(os.path.abspath(REPO), '.verif-replay', 'target-mir')
+    os.makedirs(mir_target, exist_ok=True)
+    env['CARGO_TARGET_DIR'] = mir_target
     env['CARGO_NET_OFFLINE'] = 'true'
     env.pop('RUSTFLAGS', None)
     env.pop('RUSTUP_TOOLCHAIN', None)
     need = expand(crates)
     times = {}
-    lock = open(os.path.join(CACHE, 'cargo.lock'), 'w')
+    lock = open(os.path.join(CACHE, 'cargo.lock') if os.path.abspath(REPO) == '/repo' else os.path.join(mir_target, 'verif.lock'), 'w')
     fcntl.flock(lock, fcntl.LOCK_EX)
     try:
         for c in need:
